@@ -210,18 +210,20 @@ def oracle(c, impl):
     else:
         kn = max(k for k in range(n) if b[k] <= rn)
         where = 'inside'
+    resid = []
     for k in range(n):
         exp_t = face[k] - face[k + 1]
         sc = abs(face[k]) + abs(face[k + 1]) + abs(c['nuc'])
-        got_nuc = dx[k] - exp_t
-        want = c['nuc'] if k == kn else 0.0
-        if abs(got_nuc - want) > tol * sc + (0 if exact else 1e-300):
-            if abs(got_nuc - (c['nuc'] if abs(got_nuc) > 0.5 * abs(c['nuc']) and c['nuc'] != 0 else 0.0)) <= tol * sc + 1e-300 and c['nuc'] != 0:
-                v.append(('nucleation_class', 'Rnuc %s the grid' % where if where != 'inside' else 'Rnuc inside the grid',
-                          'nuclei (rate %r, radius %r) were added to class %d, expected class %d (grid %r..%r)' % (c['nuc'], rn, k if got_nuc != 0 else -1, kn, b[0], b[-1])))
-            else:
-                v.append(('upwind_local', 'transport', 'dXdt[%d]=%r but adjacent-class exchange gives %r (+ nucleation %r)' % (k, dx[k], exp_t, want)))
-            break
+        resid.append((dx[k] - exp_t, tol * sc + (0 if exact else 1e-300)))
+    nz = [k for k, (r, t) in enumerate(resid) if abs(r) > t]
+    want = [k for k in [kn] if abs(c['nuc']) > resid[k][1]]
+    if nz != want or any(abs(resid[k][0] - c['nuc']) > resid[k][1] for k in nz):
+        if len(nz) <= 1 and all(abs(resid[k][0] - c['nuc']) <= resid[k][1] for k in nz):
+            v.append(('nucleation_class', 'Rnuc %s the grid' % where,
+                      'nuclei (rate %r, radius %r) were added to class %s, expected class %d (grid %r..%r)' % (c['nuc'], rn, nz[0] if nz else 'none', kn, b[0], b[-1])))
+        else:
+            k = nz[0] if nz else kn
+            v.append(('upwind_local', 'transport', 'dXdt[%d]=%r but adjacent-class exchange gives %r (+ nucleation %r)' % (k, dx[k], face[k] - face[k + 1], c['nuc'] if k == kn else 0.0)))
     # total
     tot = float(np.sum(dx))
     exp_tot = c['nuc'] + face[0] - face[n]
